@@ -1,8 +1,8 @@
 package main
 
 import (
-	"github.com/tidwall/geojson"
 	"fmt"
+	"github.com/tidwall/geojson"
 	"sync"
 
 	"github.com/tidwall/geojson/geometry"
@@ -23,15 +23,15 @@ type shp struct {
 	// third realisation: built elsewhere under an r-tree index (MinPoints 1)
 	// and brought to its place through Move (exact offset)
 	G3 geometry.Geometry
-	// fourth realisation: the same shape scaled by 2^-30 (products of
-	// coordinate differences around 2^-56..2^-60: an absolute epsilon would bite)
+	// fourth realisation: the same shape scaled by 2^-300 (an absolute epsilon
+	// bites, and so does anything that multiplies two determinants: underflow)
 	G4 geometry.Geometry
 	// fifth realisation: small and far away (lattice step 2^-12 at about 2^19)
 	G5  geometry.Geometry
 	tag string // curated name, "" for enumerated
 }
 
-var tinyXf = Xf{Scale: 0.5 / (1 << 30)}
+var tinyXf = Xf{Scale: 0x1p-301} // lattice step 2^-300: products of two determinants underflow, single ones do not
 
 // movedBack builds the shape translated by (-1000, +500) under an r-tree
 // index and moves it back: the same point set, obtained as a derived object.
@@ -79,6 +79,22 @@ func poolLines(k, off, maxLen int, cfg2 *geometry.IndexOptions) []*shp {
 	var out []*shp
 	lat.Seqs(lat.Lattice(k, off), 2, maxLen, -1, func(seq []exact.P) {
 		out = append(out, mkShp(&exact.Shape{Kind: exact.KLine, Line: append([]exact.P(nil), seq...)}, cfg2))
+	})
+	return out
+}
+
+// poolClosedLines: every vertex sequence of 3..maxV positions over the
+// lattice with consecutive positions distinct, closed by repeating its first
+// position, as a line (a LineString that ends where it started).
+func poolClosedLines(k, off, maxV int) []*shp {
+	var out []*shp
+	lat.Seqs(lat.Lattice(k, off), 3, maxV, -1, func(seq []exact.P) {
+		for i := range seq {
+			if seq[i] == seq[(i+1)%len(seq)] {
+				return
+			}
+		}
+		out = append(out, mkShp(&exact.Shape{Kind: exact.KLine, Line: lat.Close(append([]exact.P(nil), seq...))}, nil))
 	})
 	return out
 }
